@@ -1101,6 +1101,33 @@ func (g *c11Gen) next() c11Op {
 			c11Op{Op: "verify", Node: other, Cred: &c, Down: []int{l.Node}},
 			c11Op{Op: "verify", Node: other, Cred: &c})
 		return c11Op{Op: "verify", Node: other, Cred: &c}
+	case k >= 78 && k < 81 && len(g.entries) > 1:
+		// hostile sequence: one credential with two revocation entries that name DIFFERENT lists of one node, exactly one of
+		// them revoked; both orders, on the hosting node and on the other node. Every entry must be judged by the list that
+		// entry names.
+		e1 := g.entries[r.Intn(len(g.entries))]
+		var cand []c11Entry
+		for _, e := range g.entries {
+			if e.list.Node == e1.list.Node && (e.list.Issuer != e1.list.Issuer || e.list.Page != e1.list.Page) {
+				cand = append(cand, e)
+			}
+		}
+		if len(cand) == 0 {
+			return c11Op{Op: "entry", Node: e1.list.Node, Issuer: g.pick(c11Issuers[:3]), Purpose: StatusPurposeRevocation}
+		}
+		e2 := cand[r.Intn(len(cand))]
+		st := func(e c11Entry) c11Status {
+			return c11Status{Type: StatusList2021EntryType, Purpose: "revocation", List: e.list, Idx: strconv.Itoa(e.idx)}
+		}
+		mkc := func(a, b c11Entry) *c11Cred {
+			return &c11Cred{ID: "did:web:example.com:iam:alice#m" + strconv.Itoa(r.Intn(3)), IssuerDID: "did:web:example.com:iam:alice", Statuses: []c11Status{st(a), st(b)}}
+		}
+		l1 := e1.list
+		n, o := l1.Node, 1-l1.Node
+		g.pending = append(g.pending,
+			c11Op{Op: "verify", Node: n, Cred: mkc(e1, e2)}, c11Op{Op: "verify", Node: n, Cred: mkc(e2, e1)},
+			c11Op{Op: "verify", Node: o, Cred: mkc(e2, e1)}, c11Op{Op: "verify", Node: o, Cred: mkc(e1, e2)})
+		return c11Op{Op: "revoke", Node: n, List: &l1, Idx: strconv.Itoa(e1.idx), Purpose: StatusPurposeRevocation}
 	case k < 75 && len(g.entries) > 0:
 		// hostile sequence: the key store fails while a revocation is being signed into the list; whatever Revoke answers,
 		// the lists served afterwards, local verification and a repeated Revoke must agree with that answer
